@@ -199,7 +199,12 @@ def install_c19(reg, src):
         ip.path.assume(n >= 0)
         a = c.arg("arr", T.custom(lambda ip_, h: XArr(sym.fresh("in_cls", ClsArr), sym.fresh("in_val", sym.RealArr), n)))
         if not c.verifying:
-            raise Unsupported("_sanitize_derivatives is applied through the finiteness check, not through its contract")
+            # applied inside the real-arithmetic model (A1): every entry of a real array is finite, and on an all-finite array
+            # the sanitiser returns its argument (the 'finite entries unchanged' clause proved below, for every entry)
+            if isinstance(a, (SArr, SSeq)):
+                c.returns(lambda cc: a)
+                return
+            raise Unsupported("_sanitize_derivatives applied to an untracked value")
         sk = skolem(ip, "sk_entry", n)
         ip.path.assume(z3.And(z3.Select(a.cls, sk) >= 0, z3.Select(a.cls, sk) <= 3))
         c.returns(T.none())
